@@ -3,33 +3,70 @@
 //! GenApi XML fetch, real SIRM programming, real streaming-loop thread).
 //!
 //! Case: world items (see main.rs) then
-//!   40 sirm a_tl a_start a_stop n call{n}
+//!   40 sirm a_tl a_start a_stop n call{n} m (call_index tx_index kind){m}
 //!   call: 0 open | 3 stop_streaming | 4 close | 5 params access (TLParamsLocked.value) |
 //!         10+cap start_streaming(cap) | 20 load_context
-//! Output: 0 then per call  <res> <k> <effect>{k} <value or -1> <flags>
-//!   res as in rust/h_camera (0 Ok, 2 panic, 10.. error classes; every GenApiError is 15)
+//!   fault: the tx_index-th control transaction (0-based, counted per call) of call call_index is disturbed:
+//!     kind 0  the command is not sent (libusb timeout on send): the device never sees it
+//!     kind 1  the command arrives and is executed but no acknowledge ever comes (receive timeout)
+//!     kind 2  receive fails with the libusb timeout code      kind 3  receive fails with libusb Io
+//!     kind 4  receive fails with libusb NoDevice (-> Disconnected)   kind 5  receive fails with libusb Busy
+//!   every other transaction is answered by the conforming device.
+//! Output: 0 then per call  <res> <k> <effect>{k} <w> <wire>{w} <value or -1> <flags>
+//!   res as in rust/h_camera: 0 Ok | 2 panic | 12 InStreaming | 13 GenApiContextMissing | 14 InvalidGenApiXml |
+//!     16 GenApiError other than Device | 100+k ControlError class k | 200+k StreamError class k |
+//!     300+k GenApiError::Device carrying a ControlError of class k | 399 other Device error
+//!     (class k: 0 Io 1 Timeout 2 Disconnected 3 Busy 4 NotOpened 5 InvalidData 6 InvalidDevice 7 BufferTooSmall)
 //!   effects = the device-memory writes of the call that the acquisition protocol speaks about:
 //!     4 SI_CONTROL := 1 | 11 SI_CONTROL := 0 | 5 / 6 TLParamsLocked := 1 / 0 |
 //!     7 AcquisitionStart | 8 AcquisitionStop | 90 any other write outside the SIRM
+//!   wire = every command the host sent during the call, in order (the wire log of the control channel):
+//!     same codes for those writes | 30 other SIRM write | 15 read of TLParamsLocked | 31 other read |
+//!     39 a send that failed (nothing reached the device) | 38 not a ReadMem / WriteMem command
 //!   flags: 1 strm.is_loop_running() | 2 ctxt is Some | 32 ctrl.is_opened() |
 //!          128 SI_CONTROL bit 0 in device memory | 256 TLParamsLocked register != 0
 use std::panic::{catch_unwind, AssertUnwindSafe};
 
+use cameleon::genapi::GenApiError;
 use cameleon::{CameleonError, ControlError, DeviceControl, PayloadStream, StreamError};
+use cameleon_device::u3v::sim::{Ev, Reply, TxPlan};
 
 use crate::{build_world, make_camera, Cur};
 
+fn cclass(e: &ControlError) -> i128 {
+    match e {
+        ControlError::Io(_) => 0,
+        ControlError::Timeout => 1,
+        ControlError::Disconnected => 2,
+        ControlError::Busy => 3,
+        ControlError::NotOpened => 4,
+        ControlError::InvalidData(_) => 5,
+        ControlError::InvalidDevice(_) => 6,
+        ControlError::BufferTooSmall => 7,
+    }
+}
+
 fn eclass(e: &CameleonError) -> i128 {
     match e {
-        CameleonError::ControlError(ControlError::Io(_)) => 10,
-        CameleonError::ControlError(ControlError::InvalidData(_)) => 17,
-        CameleonError::ControlError(_) => 18,
-        CameleonError::StreamError(StreamError::Io(_)) => 11,
-        CameleonError::StreamError(StreamError::InStreaming) => 12,
-        CameleonError::StreamError(_) => 19,
+        CameleonError::ControlError(c) => 100 + cclass(c),
+        CameleonError::StreamError(s) => match s {
+            StreamError::Io(_) => 200,
+            StreamError::Timeout => 201,
+            StreamError::Disconnected => 202,
+            StreamError::ReceiveError(_) => 203,
+            StreamError::SendError(_) => 204,
+            StreamError::InvalidPayload(_) => 205,
+            StreamError::Poisoned(_) => 206,
+            StreamError::BufferTooSmall => 207,
+            StreamError::InStreaming => 12,
+        },
         CameleonError::GenApiContextMissing => 13,
         CameleonError::InvalidGenApiXml(_) => 14,
-        CameleonError::GenApiError(_) => 15,
+        CameleonError::GenApiError(GenApiError::Device(inner)) => match inner.downcast_ref::<ControlError>() {
+            Some(c) => 300 + cclass(c),
+            None => 399,
+        },
+        CameleonError::GenApiError(_) => 16,
     }
 }
 
@@ -41,19 +78,101 @@ fn le32(b: &[u8]) -> i128 {
     }
 }
 
+struct Map {
+    sirm: u64,
+    a_tl: u64,
+    a_start: u64,
+    a_stop: u64,
+}
+
+impl Map {
+    /// code of a device-memory write; None for SIRM writes other than SI_CONTROL
+    fn write_code(&self, addr: u64, data: &[u8]) -> Option<i128> {
+        let v = le32(data);
+        if addr == self.sirm + 4 {
+            Some(if v & 1 == 1 { 4 } else { 11 })
+        } else if addr >= self.sirm && addr < self.sirm + 0x100 {
+            None
+        } else if addr == self.a_tl && (v == 0 || v == 1) {
+            Some(if v == 1 { 5 } else { 6 })
+        } else if addr == self.a_start && v == 1 {
+            Some(7)
+        } else if addr == self.a_stop && v == 1 {
+            Some(8)
+        } else {
+            Some(90)
+        }
+    }
+
+    /// code of a command on the wire (U3V layout: prefix, flags, command id at 6, SCD at 12)
+    fn wire_code(&self, cmd: &[u8]) -> i128 {
+        if cmd.is_empty() {
+            return 39;
+        }
+        if cmd.len() < 20 {
+            return 38;
+        }
+        let id = u16::from_le_bytes([cmd[6], cmd[7]]);
+        let mut a = [0u8; 8];
+        a.copy_from_slice(&cmd[12..20]);
+        let addr = u64::from_le_bytes(a);
+        match id {
+            0x0800 => {
+                if addr == self.a_tl {
+                    15
+                } else {
+                    31
+                }
+            }
+            0x0802 => self.write_code(addr, &cmd[20..]).unwrap_or(30),
+            _ => 38,
+        }
+    }
+}
+
+fn fault_plan(kind: i128) -> TxPlan {
+    match kind {
+        0 => TxPlan { send_err: Some(6), replies: vec![] },
+        1 => TxPlan { send_err: None, replies: vec![] },
+        2 => TxPlan { send_err: None, replies: vec![Reply::RecvErr(6)] },
+        3 => TxPlan { send_err: None, replies: vec![Reply::RecvErr(0)] },
+        4 => TxPlan { send_err: None, replies: vec![Reply::RecvErr(3)] },
+        _ => TxPlan { send_err: None, replies: vec![Reply::RecvErr(5)] },
+    }
+}
+
 pub fn run(c: &mut Cur) -> Vec<i128> {
     let w = build_world(c);
     let _marker = c.int();
-    let sirm = c.int() as u64;
-    let a_tl = c.int() as u64;
-    let a_start = c.int() as u64;
-    let a_stop = c.int() as u64;
+    let map = Map {
+        sirm: c.int() as u64,
+        a_tl: c.int() as u64,
+        a_start: c.int() as u64,
+        a_stop: c.int() as u64,
+    };
     let n = c.int() as usize;
     let calls: Vec<i128> = (0..n).map(|_| c.int()).collect();
+    let m = if c.done() { 0 } else { c.int() as usize };
+    let faults: Vec<(usize, usize, i128)> = (0..m).map(|_| (c.int() as usize, c.int() as usize, c.int())).collect();
     let (world, mut cam) = make_camera(w);
     let mut out: Vec<i128> = vec![0];
-    for &call in &calls {
-        let before = world.lock().unwrap().mem_writes.len();
+    for (ci, &call) in calls.iter().enumerate() {
+        let (before, log_before) = {
+            let mut wl = world.lock().unwrap();
+            wl.plans.clear();
+            let mut fs: Vec<&(usize, usize, i128)> = faults.iter().filter(|f| f.0 == ci).collect();
+            fs.sort_by_key(|f| f.1);
+            let mut next = 0;
+            for f in fs {
+                while next < f.1 {
+                    wl.plans.push_back(TxPlan { send_err: None, replies: vec![Reply::Conform(vec![])] });
+                    next += 1;
+                }
+                wl.plans.push_back(fault_plan(f.2));
+                next += 1;
+            }
+            (wl.mem_writes.len(), wl.log.len())
+        };
         let mut val: i128 = -1;
         let r = catch_unwind(AssertUnwindSafe(|| -> Result<i128, CameleonError> {
             match call {
@@ -82,24 +201,16 @@ pub fn run(c: &mut Cur) -> Vec<i128> {
             }
             Ok(Err(e)) => eclass(&e),
         };
-        let wl = world.lock().unwrap();
-        let mut effs: Vec<i128> = vec![];
-        for (addr, data) in wl.mem_writes[before..].iter() {
-            let v = le32(data);
-            if *addr == sirm + 4 {
-                effs.push(if v & 1 == 1 { 4 } else { 11 });
-            } else if *addr >= sirm && *addr < sirm + 0x100 {
-                continue;
-            } else if *addr == a_tl && (v == 0 || v == 1) {
-                effs.push(if v == 1 { 5 } else { 6 });
-            } else if *addr == a_start && v == 1 {
-                effs.push(7);
-            } else if *addr == a_stop && v == 1 {
-                effs.push(8);
-            } else {
-                effs.push(90);
-            }
-        }
+        let mut wl = world.lock().unwrap();
+        wl.plans.clear();
+        let effs: Vec<i128> = wl.mem_writes[before..].iter().filter_map(|(a, d)| map.write_code(*a, d)).collect();
+        let wire: Vec<i128> = wl.log[log_before..]
+            .iter()
+            .filter_map(|e| match e {
+                Ev::Send(cmd) => Some(map.wire_code(cmd)),
+                _ => None,
+            })
+            .collect();
         let mut flags: i128 = 0;
         if cam.strm.is_loop_running() {
             flags |= 1;
@@ -110,15 +221,17 @@ pub fn run(c: &mut Cur) -> Vec<i128> {
         if cam.ctrl.is_opened() {
             flags |= 32;
         }
-        if wl.mem_read(sirm + 4, 4).map(|b| b[0] & 1 == 1).unwrap_or(false) {
+        if wl.mem_read(map.sirm + 4, 4).map(|b| b[0] & 1 == 1).unwrap_or(false) {
             flags |= 128;
         }
-        if wl.mem_read(a_tl, 4).map(|b| le32(&b) != 0).unwrap_or(false) {
+        if wl.mem_read(map.a_tl, 4).map(|b| le32(&b) != 0).unwrap_or(false) {
             flags |= 256;
         }
         out.push(res);
         out.push(effs.len() as i128);
         out.extend_from_slice(&effs);
+        out.push(wire.len() as i128);
+        out.extend_from_slice(&wire);
         out.push(val);
         out.push(flags);
     }
